@@ -155,13 +155,17 @@ PlausWhy(l) ==
         [] f = "simd" -> First(<<
           <<"register_class", cs \subseteq {"mm", "xmm", "r32"} /\ Cardinality(cs \cap {"mm", "xmm"}) = 1
                               /\ (m \in XmmOnly => "mm" \notin cs) /\ ("r32" \in cs => m \in {"movd", "cvtsi2sd", "pextrw", "pinsrw"})>>,
-          <<"memory_size", MemSizes(l.ops) \subseteq (IF m \in DOMAIN FixedMem THEN {FixedMem[m]} ELSE IF m = "movsd" THEN {64} ELSE SimdSizes(l.ops))>>,
+          <<"memory_size", MemSizes(l.ops) \subseteq (IF m \in DOMAIN FixedMem THEN {FixedMem[m]} ELSE IF m = "movsd" THEN {64}
+                                                       ELSE IF m = "punpcklbw" /\ "mm" \in cs THEN {32} ELSE SimdSizes(l.ops))>>,
           <<"operand_form", (n = 3 => IsImm(l.ops[3])) /\ (n >= 2 => K(2) # "imm")
                             /\ (m = "movd" => Cardinality({j \in 1..n : RegIn(l.ops[j], {"mm", "xmm"})}) = 1)
                             /\ (m = "cvtsi2sd" => n = 2 /\ RegIn(l.ops[1], {"xmm"}) /\ (K(2) = "mem" \/ RegIn(l.ops[2], {"r32"})))
                             /\ (m = "pextrw" => n >= 2 /\ RegIn(l.ops[1], {"r32"}) /\ K(2) = "reg")
                             /\ (m = "pinsrw" => n >= 2 /\ RegIn(l.ops[1], {"mm", "xmm"}) /\ (K(2) = "mem" \/ RegIn(l.ops[2], {"r32"})))>> >>)
-        [] OTHER -> First(<< <<"register_class", cs \subseteq {"r32"}>>, <<"memory_size", MemSizes(l.ops) \subseteq {32}>> >>)
+        [] OTHER -> First(<< <<"register_class", cs \subseteq (IF m \in {"jmp", "call"} THEN {"r32"} ELSE {})>>,
+                             <<"memory_size", MemSizes(l.ops) \subseteq (IF m \in {"jmp", "call"} THEN {32} ELSE {})>>,
+                             <<"operand_form", m \in {"jmpf", "callf"} => nmem = 1>>,
+                             <<"operand_form", m \in Jcc => nmem = 0>> >>)
        \* an out-of-range immediate is the last reason: such a line is otherwise well-formed, and what C02 asks about it
        \* (the value must not be truncated) is judged per value, not as an invalid line
        why == IF general # "" THEN general ELSE IF byfam # "" THEN byfam ELSE IF ~ImmOK(m, l.ops) THEN "immediate_range" ELSE ""
